@@ -405,17 +405,20 @@ def run(ctx: Ctx) -> None:
     _judge_all(ctx, d1, seen_new)
     ctx.extra["exhaustive_depth_le1_terms"] = len(d0) + len(d1)
 
-    # 2. depth 2: children from a reduced depth-1 alphabet (every constructor represented), strided
+    # 2. depth 2: children from a reduced depth-1 alphabet (every constructor represented); the alphabet is sized so that
+    #    the enumeration stays in the order of 10^5 (quick) / 10^6 (thorough) terms, of which a strided sample is judged
     reduced = [s for i, s in enumerate(d1) if s[0] != "Callable" or i % 97 == 0]
-    stride = ctx.n(211, 7)
+    n_base = 40 if ctx.tier == "quick" else 120
+    stride = max(1, len(reduced) // n_base)
     offs = ctx.seed % stride
-    base2 = d0[:6] + reduced[offs::stride]
+    base2 = d0[:6] + reduced[offs::stride][:n_base]
     d2 = level_up(base2, 2, callable_ret=base2[:8])
-    step = max(1, len(d2) // ctx.n(20000, 400000))
+    step = max(1, len(d2) // ctx.n(20000, 300000))
     d2s = d2[(ctx.seed % step) :: step]
     _judge_all(ctx, d2s, seen_new)
     ctx.extra["depth2_terms_judged"] = len(d2s)
     ctx.extra["depth2_terms_total_in_enumeration"] = len(d2)
+    del d2
 
     # 3. Hypothesis random deep terms and independent pairs
     n_rand = ctx.n(3000, 200000)
